@@ -214,8 +214,42 @@ def gen_geo(ctx, i):
                 col.centre_specified = 1
                 cs[col.name] = c
         desc['centres'] = cs
+    if rng.random() < 0.35 and not desc.get('reduced_to'):
+        # a derived geometry: new columns / nodes / layers named by the library itself (what it names them must survive
+        # the file as well as the names rectangular() gave)
+        how = rng.choice(['refine', 'refine', 'split_column', 'refine_layers', 'triangulate'])
+        if how == 'refine_layers' and not geo.default_surface:
+            # (new layer boundaries could fall within a hundredth of a surface set earlier, and whether a thin block exists
+            #  would then hang on the two decimals of the file: layer refinement is applied to geometries without surfaces)
+            how = 'refine'
+        try:
+            if how == 'refine':
+                geo.refine(rng.sample(geo.columnlist, rng.randint(1, max(1, geo.num_columns // 2))))
+            elif how == 'split_column':
+                col = rng.choice(geo.columnlist)
+                geo.split_column(col.name, col.node[0].name)
+            elif how == 'triangulate':
+                geo.triangulate_column(rng.choice(geo.columnlist).name)
+                for con in geo.missing_connections:
+                    geo.add_connection(con)
+                geo.identify_neighbours()
+                geo.setup_block_name_index()
+                geo.setup_block_connection_name_index()
+            elif geo.num_layers > 1 and not (geo.convention == 0 and geo.num_layers > 30):
+                geo.refine_layers(rng.sample(geo.layerlist[1:], rng.randint(1, geo.num_layers - 1)), factor=2)
+            desc['derived_by'] = how
+            ctx.see('generated_geometry_derived_by', how)
+        except R.mulgrids.NamingConventionError:
+            desc['derived_by'] = how + ':naming-error'
     if rng.random() < 0.3:
         desc['columns_renamed'] = rename_some_columns(rng, geo)
+    if rng.random() < 0.25:
+        # the surface layer with a centre of its own, a hundredth or so above its bottom, as MULgraph-style files give it
+        # (shipped g4, g5): the file records it and the reader must give it back
+        top = geo.layerlist[0]
+        top.centre = top.bottom + rng.choice([0.01, 0.01, 0.5])
+        desc['surface_layer_centre_above_bottom'] = top.centre - top.bottom
+        ctx.count('geometries_with_surface_layer_centre_of_its_own')
     if rng.random() < 0.3:
         geo.gdcx = rng.choice([0.0, 0.1, -0.25, None])
         geo.gdcy = rng.choice([0.0, 0.05, None])
@@ -264,7 +298,18 @@ def roundtrip(ctx, geo, case, tag):
         exp = model_of(geo, projected=True)
         names0, cons0 = list(geo.block_name_list), list(geo.block_connection_name_list)
         geo.write(fn1)
+        # writing is not an edit: the geometry in memory is what it was, and a second write gives the same file
+        after = model_of(geo, projected=True)
+        geo.write(fn2)
     if g.raised is not None:
+        return False
+    ctx.count('object_unchanged_by_write_checks')
+    d = diff_models(exp, after)
+    if d or list(geo.block_name_list) != names0 or list(geo.block_connection_name_list) != cons0:
+        ctx.violation('%s:write-alters-geometry' % tag, 'the geometry differs after write(): %s' % (d[0][1] if d else 'derived name lists changed'), case)
+        return False
+    if read_bytes(fn1) != read_bytes(fn2):
+        ctx.violation('%s:repeated-write-differs' % tag, 'writing the same geometry twice gives two different files', case)
         return False
     with ctx.guard(case, where='read') as g:
         g1 = mg.mulgrid(fn1)
@@ -398,6 +443,24 @@ def run_shipped(ctx, spec):
             geo = geos.load_shipped(name)
         if g.raised is not None:
             continue
+        # the LAYERS records of the shipped file sliced by hand (name a3, bottom and centre f10): what the reader holds
+        # must be what the file says (a comparison of two reads of the same reader cannot see what both of them drop)
+        with open(geos.shipped_path(name)) as fh:
+            flines = fh.read().split('\n')
+        k0 = next(i for i, l in enumerate(flines) if l[:5].upper() == 'LAYER') + 1
+        recs = []
+        for l in flines[k0:]:
+            if not l.strip():
+                break
+            recs.append((l[0:3], float(l[3:13]), float(l[13:23]) if l[13:23].strip() else None))
+        ctx.count('shipped_layer_records_resliced', len(recs))
+        if len(recs) == geo.num_layers:
+            for (nm, bot, cen), lay in zip(recs, geo.layerlist):
+                if abs(lay.bottom - bot) > 1e-9 or (cen is not None and abs(lay.centre - cen) > 1e-9):
+                    ctx.violation('shipped:layer-record-misread', '%s: LAYERS record %r (bottom %r, centre %r) is held as bottom %r, centre %r' % (name, nm, bot, cen, lay.bottom, lay.centre), case)
+                    break
+        else:
+            ctx.violation('shipped:layer-record-misread', '%s: %d LAYERS records in the file, %d layers read' % (name, len(recs), geo.num_layers), case)
         roundtrip(ctx, geo, case, 'shipped')
         ctx.count('shipped_or_derived')
         ctx.case(('shipped', name), nontrivial=True, sample=True)
